@@ -375,8 +375,10 @@ class Runner:
             pend = [i for i, c in enumerate(self.calls) if c["result"] is None]
             if not pend:
                 return
-            c = pend[o["c"] % len(pend)]
+            # a resolved history names the call itself; a generated one picks among the pending calls
+            c = o["c"] if (o.get("abs") and o["c"] in pend) else pend[o["c"] % len(pend)]
             o["c"] = c
+            o["abs"] = True
             self.resolved.append(o)
             res = o["res"]
             fut = self.calls[c]["fut"]
@@ -641,6 +643,7 @@ class Diff:
         self.structure: List[str] = []    # C11: outcome kind, dump, item type, sharing, later change of a stream
         self.routing: List[str] = []      # C12: executor, AST handed over, title, delivered result, errors of value, roots
         self.qmd: List[str] = []          # C16: lookups
+        self.graph: List[str] = []        # sharing/attributes of the node objects (informational)
 
     def any(self):
         return self.structure or self.routing or self.qmd
@@ -685,7 +688,8 @@ def compare(runner: Runner, answer: str) -> Diff:
             else:
                 r = reg.match(m[4], o[4], runner)
                 if r:
-                    d.structure.append(tag + "object graph: " + r)
+                    # which objects are shared/new and what they carry is not observable by itself: recorded, not alarmed
+                    d.graph.append(tag + "object graph: " + r)
         elif m[0] == "C":
             if int(m[1]) != o[1]:
                 d.routing.append(tag + "call id")
@@ -710,7 +714,7 @@ def compare(runner: Runner, answer: str) -> Diff:
                 continue
             if (dump is not None and f[1] != dump) or unhx(f[2]) != ty:
                 d.structure.append("after step %d %s: stream %d has dump/type %s/%s, the model %s/%s"
-                                   % (i, runner.model_ops[i][:50], sid, dump[:8], ty, f[1][:8], unhx(f[2])))
+                                   % (i, runner.model_ops[i][:50], sid, str(dump)[:8], ty, f[1][:8], unhx(f[2])))
             ml = tuple("(r %s)" % hx("None") if x == "-" else sx_str(x) for x in f[3])
             if looks is not None and ml != looks:
                 d.qmd.append("after step %d: lookups on stream %d for keys %s: model %s, code %s"
@@ -919,10 +923,6 @@ def oracle_invisible(r: Runner) -> Optional[str]:
     lb = [(e, ast.dump(n), t) for e, n, t in r2.glog]
     if la != lb:
         return "executor calls differ with and without QMetaData"
-    for e, n, t in r.glog:
-        for x in ast.walk(n):
-            if hasattr(x, "_q_metadata") and False:
-                return "query metadata attribute reaches the executor"
     return None
 
 
@@ -1104,6 +1104,12 @@ def check_histories(ctx, prop: str, histories: List[List[dict]], label: str):
             msg = x[1] if x else failed[1]
             ctx.fail("failing-input", "%s oracle '%s': %s ; history %s" % (prop, name, msg, json.dumps(x[2].resolved if x else small)),
                      {"oracle": name, "history": x[2].resolved if x else small}, key=core.digest({"p": prop, "o": name, "h": small}))
+        if d.graph:
+            ctx.count("object_graph", "differs")
+            if not any(n.startswith("object graph") for n in ctx.notes):
+                ctx.notes.append(d.graph[0][:400])
+        else:
+            ctx.count("object_graph", "same")
         mine = {"C11": d.structure, "C12": d.routing, "C16": d.qmd}[prop]
         if mine:
             ctx.corr_disagreements += 1
